@@ -19,6 +19,9 @@ import (
 	"fmt"
 	"io"
 	"log"
+	"os"
+	"strconv"
+	"strings"
 
 	"verifharness/hxlib"
 
@@ -78,9 +81,26 @@ type Case struct {
 	Buf   string   `json:"buf,omitempty"`   // core: scratch buffer contents before the call
 	Msgs  []string `json:"msgs"`            // hex; core: exactly one
 	Order []int    `json:"order,omitempty"` // session: indices of the ciphertexts the receiver decrypts, in that order
+	// search legs (search.go)
+	Off     int    `json:"off,omitempty"`     // every packet buffer handed to the code starts at an address that is Off mod 16
+	Windows []int  `json:"windows,omitempty"` // kind "period": Msgs[0] is the probe; Windows[i] filler packets are processed between probe i and probe i+1
+	Seed    uint64 `json:"seed,omitempty"`    // kind "period": seed of the filler packets
 }
 
 func unhex(s string) []byte {
+	if len(s) > 2 && s[1] == ':' { // z:<n> = n zero bytes, f:<n> = n 0xff bytes (search legs: megabyte packets)
+		n, err := strconv.Atoi(s[2:])
+		if err != nil {
+			panic(err)
+		}
+		b := make([]byte, n)
+		if s[0] == 'f' {
+			for i := range b {
+				b[i] = 0xff
+			}
+		}
+		return b
+	}
 	b, err := hex.DecodeString(s)
 	if err != nil {
 		panic(err)
@@ -96,8 +116,8 @@ func clone(b []byte) []byte {
 
 // ---- leg (a): the unrolled cores with the toy block --------------------------------------------
 
-func coreCall(dir string, bs int, key, iv, buf, m []byte) (line string, out, bufAfter []byte) {
-	data, scratch := clone(m), clone(buf)
+func coreCall(dir string, bs int, key, iv, buf, m []byte, off int) (line string, out, bufAfter []byte) {
+	data, scratch := place(m, off), clone(buf)
 	blk := &toyBlock{key: key, n: bs}
 	p := hxlib.Guard(func() {
 		if dir == "enc" {
@@ -129,7 +149,7 @@ func lenClass(l, n int) string {
 func runCore(r *hxlib.Run, c Case) (packet, scratch []byte) {
 	r.Case()
 	key, iv, buf, m := unhex(c.Key), unhex(c.IV), unhex(c.Buf), unhex(c.Msgs[0])
-	line, out, bufAfter := coreCall(c.Dir, c.BS, key, iv, buf, m)
+	line, out, bufAfter := coreCall(c.Dir, c.BS, key, iv, buf, m, c.Off)
 	r.Op(fmt.Sprintf("%s bs=%d key=%s iv=%s buf=%s m=%s", c.Dir, c.BS, hxlib.Hex(key), hxlib.Hex(iv), hxlib.Hex(buf), hxlib.Hex(m)), line)
 	fn := fmt.Sprintf("%s%d", c.Dir, c.BS)
 	if out == nil {
@@ -270,9 +290,9 @@ func runSession(r *hxlib.Run, c Case, model bool) {
 		hxlib.Guard(func() {
 			f := xc.NewCrypt(c.Name, clone(key), clone(iv))
 			if decrypt {
-				out = f.Decrypt(clone(b))
+				out = f.Decrypt(place(b, c.Off))
 			} else {
-				out = f.Encrypt(clone(b))
+				out = f.Encrypt(place(b, c.Off))
 			}
 		})
 		return out
@@ -289,7 +309,7 @@ func runSession(r *hxlib.Run, c Case, model bool) {
 	for i, mh := range c.Msgs {
 		m := unhex(mh)
 		var ct []byte
-		if p := hxlib.Guard(func() { ct = enc.Encrypt(clone(m)) }); p != "" {
+		if p := hxlib.Guard(func() { ct = enc.Encrypt(place(m, c.Off)) }); p != "" {
 			r.Fail("panic:"+kn, fmt.Sprintf("%s Encrypt of a %d-byte packet (packet %d of the session) panics: %s", kn, len(m), i, p), c)
 			return
 		}
@@ -346,7 +366,7 @@ func runSession(r *hxlib.Run, c Case, model bool) {
 		}
 		m := unhex(c.Msgs[idx])
 		var pt []byte
-		ct := clone(cts[idx])
+		ct := place(cts[idx], c.Off)
 		if p := hxlib.Guard(func() { pt = dec.Decrypt(ct) }); p != "" {
 			r.Fail("panic:"+kn, fmt.Sprintf("%s Decrypt of a %d-byte packet panics: %s", kn, len(m), p), c)
 			return
@@ -488,12 +508,21 @@ func main() {
 	if r.Replay != "" {
 		var c Case
 		r.LoadReplay(&c)
-		if c.Kind == "core" {
+		switch c.Kind {
+		case "core":
 			runCore(r, c)
-		} else {
+		case "period":
+			runPeriod(r, c)
+		default:
 			runSession(r, c, true)
 		}
-		r.Sample(c)
+		if sz := len(strings.Join(c.Msgs, "")); sz < 4096 {
+			r.Sample(c)
+		}
+		return
+	}
+	if os.Getenv("HX_LEGS_ONLY") != "" { // development: the legs of search.go alone
+		legs(r)
 		return
 	}
 
@@ -607,4 +636,5 @@ func main() {
 	if r.Thorough() {
 		r.Note("every packet length 0..4096 was run for every cipher name (3 random keys/IVs each) and for the four unrolled cores with the toy block")
 	}
+	legs(r) // search.go (after the generators, so that the smallest failing case of a kind is recorded first): cheap legs in every tier, the 10-60 s ones from thorough on, the rest with -search only
 }
